@@ -1,13 +1,14 @@
 #!/bin/bash
-# usage: seedrun.sh <patch> <property> [tier]   — applies the patch to /repo, runs the check, reverts.
-# (no git stash: stashes are shared between worktrees)
-patch=$1; prop=$2; tier=${3:-quick}
-cd /repo || exit 2
-git diff > /tmp/repo_wip_$$.diff
-git checkout -q -- .
-git apply $patch || { echo "PATCH DOES NOT APPLY to /repo"; git apply /tmp/repo_wip_$$.diff 2>/dev/null; exit 2; }
+# usage: seedrun.sh <patch> <property> [tier]
+# Applies the patch to a scratch worktree of /repo's HEAD (never to /repo
+# itself), runs the check against that tree (GOSYM_REPO), removes the worktree.
+# The committed evidence file of the property is preserved.
+patch=$(readlink -f $1); prop=$2; tier=${3:-quick}
+wt=/tmp/seedrun_wt_$$
+git -C /repo worktree add -q --detach $wt HEAD || exit 2
+( cd $wt && git apply $patch ) || { echo "PATCH DOES NOT APPLY"; git -C /repo worktree remove --force $wt; exit 2; }
 cp /verif/evidence/$prop.json /tmp/ev_$$.json 2>/dev/null
-cd /verif && ./checks/run $prop $tier > /tmp/seedrun_$prop.log 2>&1; rc=$?
+cd /verif && GOSYM_REPO=$wt ./checks/run $prop $tier > /tmp/seedrun_$prop.log 2>&1; rc=$?
 cp /tmp/ev_$$.json /verif/evidence/$prop.json 2>/dev/null; rm -f /tmp/ev_$$.json
-cd /repo && git checkout -q -- . ; [ -s /tmp/repo_wip_$$.diff ] && git apply /tmp/repo_wip_$$.diff; rm -f /tmp/repo_wip_$$.diff
+git -C /repo worktree remove --force $wt; git -C /repo worktree prune
 echo "exit=$rc"; grep "VIOLATION\|KNOWN-FINDING\|INCONCLUSIVE\|UNCONFIRMED\|^OK" /tmp/seedrun_$prop.log | cut -c1-260 | head -12
